@@ -68,6 +68,12 @@ int vnaproperty_import_yaml_from_file(vnaproperty_t **rootptr, FILE *fp,
 		"%s error: empty YAML document", vyml.vyml_filename);
 	goto error;
     }
+    if (vnaproperty_delete(rootptr, ".") == -1) {	/* replace old content */
+	_vnaproperty_yaml_error(&vyml, VNAERR_SYSTEM,
+		"vnaproperty_delete: %s: %s",
+		vyml.vyml_filename, strerror(errno));
+	goto error;
+    }
     if (_vnaproperty_yaml_import(&vyml, rootptr, (void *)root) == -1) {
 	goto error;
     }
